@@ -7,7 +7,7 @@ from ..trace import TraceWriter
 
 ASSUMPTIONS = [
     'TLAPS (tla/proofs/RejectProofs.tla, checked by tlapm on every run): RejectsInvalid of Reject.tla holds after any sequence of edits and calls',
-    "leg A: the specification-editing machine of tla/Reject.tla, all 2^9 specifications x 20 entry points x 2 models; a design that silently prefers one permeate condition is a negative configuration",
+    "leg A: the specification-editing machine of tla/Reject.tla, all 2^9 specifications x 19 entry points x 2 models; a design that silently prefers one permeate condition is a negative configuration",
     "leg C: TLC writes the table of (entry point, invalid class, model) rows; each row is executed with otherwise valid random arguments, next to a valid control call",
     "any exception type counts as rejection; process models are called with at least one step (with zero steps no driving force is computed)",
 ]
@@ -16,7 +16,7 @@ CLAUSES = {
     "Ref_ControlAccepted": "DRIFT: the valid control specification is accepted",
 }
 MANIFEST = {
-    "text": "TLC model-checks tla/Reject.tla (an entry point accepts a specification only if it is valid; 512 specifications x 20 entry points "
+    "text": "TLC model-checks tla/Reject.tla (an entry point accepts a specification only if it is valid; 512 specifications x 19 entry points "
             "x 2 models) and writes the table of invalid rows; every row is executed on the real code with random valid remaining arguments "
             "and validated by TLC against the specification's validity predicate. tlapm proves RejectsInvalid for any sequence of edits and calls.",
     "note": "Remaining arguments sampled. Trusted: TLC, Java overrides, recorder.",
